@@ -151,3 +151,16 @@ REG.contract(
     raises={"TypeError": ("not is_cls(obj, 'Section')", "prop"),
             "NameError": ("is_cls(obj, 'Section') and link(gid(field(self, '_metadata')), dname) != 0", "prop")},
     prop_clauses=["raises-only:TypeError", "raises-only:NameError", "refused-before-cut:TypeError", "refused-before-cut:NameError"])
+
+REG.contract(
+    "nixio.section.Section.copy_section", props=["C20", "C12"], prefix=True,
+    params=dict(self=Obj("Section"), obj=Dyn, children=Bool, keep_id=Bool, name=Str),
+    requires=["is_obj(obj)", "target_obj(obj) != 0", "is_str(dec(attr(target_obj(obj), 'name')))", "hobj(self) != 0",
+              "link(hobj(self), 'sections') != 0 and link(hobj(self), 'sections') < freshid() and okind(link(hobj(self), 'sections')) == 1",
+              "field(field(self, '_h5group'), 'pgid') != hobj(self)"],
+    modifies=["link", "ord", "kind", "fresh", "attr", "data", "dshape", "dtype"],
+    let="dname = ite_(len(name) == 0, as_str(dec(attr(target_obj(obj), 'name'))), name); cont = link(hobj(self), 'sections')",
+    # refused exactly when the DESTINATION name (the supplied one, else the source's) is taken in this section
+    raises={"TypeError": ("not is_cls(obj, 'Section')", "prop"),
+            "NameError": ("is_cls(obj, 'Section') and link(cont, dname) != 0", "prop")},
+    prop_clauses=["raises-only:TypeError", "raises-only:NameError", "refused-before-cut:TypeError", "refused-before-cut:NameError"])
